@@ -32,6 +32,10 @@ func c06Check(rep *Report, c *L2Case, startNext uint64) {
 				kind = l.V[1].(OS).V
 			}
 			rep.Hist("fdep:" + kind)
+			// a sender that is not a listed executor at that moment must be rejected whatever the sequence
+			if i < len(c.SenderIsExec) && !c.SenderIsExec[i] && kind != "ERR" {
+				rep.Violate(Violation{Case: c.ID, Step: i, What: fmt.Sprintf("deposit finalization (seq %d) by %q, who is not a listed bridge executor, returned %s instead of an error", o.Seq, o.Sender, kind), Sig: "C06:unauthorised-accepted", Ops: opsCoq(c.Ops[:i+1])})
+			}
 			switch kind {
 			case "SUCCESS":
 				if o.Seq != expected {
